@@ -2,5 +2,6 @@ SPECIFICATION Spec
 INVARIANT InvSized
 INVARIANT InvCount
 INVARIANT InvPacking
+INVARIANT InvLevelText
 CONSTRAINT EmitConstraint
 CHECK_DEADLOCK FALSE
